@@ -357,6 +357,7 @@ impl Session {
         let vs = a["vs"].as_u64().unwrap_or(0) as usize;
         let n = dec(&a["n"]);
         let fl = a["fl"].as_bool().unwrap_or(false);
+        let cd = a["cd"].as_i64().unwrap_or(0);
         let keep: HashSet<u32> = a["keep"].as_array()
             .map(|v| v.iter().map(|x| x.as_u64().unwrap_or(0) as u32).collect())
             .unwrap_or_default();
@@ -495,7 +496,7 @@ impl Session {
                 match name.as_str() {
                     "insert" => {
                         let key = TKey::new(k, kh);
-                        let value = TVal::new(vs);
+                        let value = TVal::with_clone_delta(vs, cd);
                         *argk = key.tok;
                         *argv = value.tok;
 
@@ -523,7 +524,7 @@ impl Session {
                     },
                     "try_insert" => {
                         let key = TKey::new(k, kh);
-                        let value = TVal::new(vs);
+                        let value = TVal::with_clone_delta(vs, cd);
                         *argk = key.tok;
                         *argv = value.tok;
 
